@@ -131,6 +131,17 @@ fn build(e: Emb, pol: &Value) -> Result<Arc<table::PolicyAssignment>, String> {
                     communities: vec![(65000u32 << 16) | 3],
                 })
             }
+            "commset" => {
+                actions.community = Some(table::CommunityAction { action_type: table::CommunityActionType::Replace, communities: vec![(65000u32 << 16) | 4] })
+            }
+            "commrm" => {
+                actions.community = Some(table::CommunityAction { action_type: table::CommunityActionType::Remove, communities: vec![(65000u32 << 16) | 1] })
+            }
+            "medadd" => actions.med = Some(table::MedAction { action_type: table::MedActionType::Mod, value: 50 }),
+            "medsub" => actions.med = Some(table::MedAction { action_type: table::MedActionType::Mod, value: -10 }),
+            "medset" => actions.med = Some(table::MedAction { action_type: table::MedActionType::Replace, value: 7 }),
+            "prep2" => actions.as_prepend = Some(table::AsPrependAction { asn: 65009, repeat: 2, use_left_most: false }),
+            "nhset" => actions.nexthop = Some(table::NexthopAction::Address(IpAddr::V4(Ipv4Addr::new(198, 51, 100, 9)))),
             _ => {}
         }
         t.add_statement(&name, conds, disp, actions).map_err(|_| "add_statement rejected".to_string())?;
@@ -223,6 +234,12 @@ fn main() {
             if r["ap"].as_str().unwrap() != "none" {
                 attrs.push(Attribute::new_with_bin(Attribute::AS_PATH, aspath(r["ap"].as_str().unwrap())).unwrap());
             }
+            // MED on the model's scale: 2000 = absent, values above 500 stand for 2^32 - 1 - (1000 - m)
+            let med_real = |m: u64| -> u32 { if m > 500 { u32::MAX - (1000 - m) as u32 } else { m as u32 } };
+            let rmed = r["med"].as_u64().unwrap_or(2000);
+            if rmed != 2000 {
+                attrs.push(Attribute::new_with_value(Attribute::MULTI_EXIT_DESC, med_real(rmed)).unwrap());
+            }
             let cm: Vec<u64> = r["cm"].as_array().unwrap().iter().map(|x| x.as_u64().unwrap()).collect();
             if !cm.is_empty() {
                 let mut b = Vec::new();
@@ -244,7 +261,12 @@ fn main() {
                     .unwrap_or_default();
                 comm.sort();
                 comm.dedup();
-                (filtered, lp, comm)
+                let med: i64 = post.iter().find(|a| a.code() == Attribute::MULTI_EXIT_DESC).and_then(|a| a.value()).map(|v| v as i64).unwrap_or(-1);
+                let ap = post.iter().find(|a| a.code() == Attribute::AS_PATH);
+                let hops = ap.map(|a| a.as_path_length() as u64).unwrap_or(0);
+                let first = ap.and_then(|a| packet::bgp::AsPathIter::new(a).flatten().next()).unwrap_or(0);
+                let nhp = nh.map(|n| n.addr() == IpAddr::V4(Ipv4Addr::new(198, 51, 100, 9))).unwrap_or(false);
+                (filtered, lp, comm, med, hops, first, nhp)
             }));
             let exp = &j["exp"];
             match res {
@@ -254,8 +276,13 @@ fn main() {
                         writeln!(out, "{}", json!({"i": idx, "emb": ei, "kind": "panic", "pol": j["pol"], "r": j["r"]})).unwrap();
                     }
                 }
-                Ok((filtered, lp, comm)) => {
+                Ok((filtered, lp, comm, med, hops, first, nhp)) => {
                     let want_rej = exp["d"] == "reject";
+                    let want_med: i64 = match exp["med"].as_u64().unwrap_or(2000) {
+                        2000 => -1,
+                        m if m > 500 => (u32::MAX - (1000 - m) as u32) as i64,
+                        m => m as i64,
+                    };
                     let mut ecm: Vec<u32> = exp["cm"].as_array().unwrap().iter().map(|x| x.as_u64().unwrap() as u32).collect();
                     ecm.sort();
                     let bad = if filtered != want_rej {
@@ -264,6 +291,12 @@ fn main() {
                         Some("local_pref")
                     } else if !want_rej && comm != ecm {
                         Some("community")
+                    } else if !want_rej && med != want_med {
+                        Some("med")
+                    } else if !want_rej && (hops != exp["hops"].as_u64().unwrap() || first as u64 != exp["first"].as_u64().unwrap()) {
+                        Some("as_path")
+                    } else if !want_rej && nhp != (exp["nh"] == "policy") {
+                        Some("next_hop")
                     } else {
                         None
                     };
@@ -274,7 +307,7 @@ fn main() {
                                 out,
                                 "{}",
                                 json!({"i": idx, "emb": ei, "kind": k, "pol": j["pol"], "r": j["r"], "expected": exp,
-                                       "actual": {"rejected": filtered, "lp": lp, "cm": comm}})
+                                       "actual": {"rejected": filtered, "lp": lp, "cm": comm, "med": med, "hops": hops, "first": first, "nh_policy": nhp}})
                             )
                             .unwrap();
                         }
@@ -282,6 +315,97 @@ fn main() {
                 }
             }
         }
+    }
+    // "for any attribute contents the wire decoder or the API can produce": candidate octet strings - well-formed and not - go
+    // through the real decoder of an attribute value; whatever it ACCEPTS becomes a route attribute and every kind of
+    // condition and action is evaluated on it.  Nothing may panic (the outcome itself is not compared: the reference has no
+    // opinion on values it cannot express).
+    if args.get(3).map(|s| s.as_str()) == Some("wire") {
+        let as4 = |a: u32| a.to_be_bytes().to_vec();
+        let cat = |parts: &[Vec<u8>]| parts.concat();
+        let mut cands: Vec<(u8, Vec<u8>)> = Vec::new();
+        let a1 = as4(65001);
+        for v in [
+            vec![],
+            vec![2],
+            vec![2, 0],
+            cat(&[vec![2, 1], a1.clone()]),
+            cat(&[vec![2, 1], a1.clone(), vec![2]]),
+            cat(&[vec![2, 1], a1.clone(), vec![2, 1]]),
+            cat(&[vec![2, 1], a1.clone(), vec![2, 0]]),
+            cat(&[vec![2, 0], vec![2, 1], a1.clone()]),
+            cat(&[vec![2, 2], a1.clone()]),
+            cat(&[vec![2, 255], a1.clone()]),
+            cat(&[vec![1, 1], a1.clone()]),
+            cat(&[vec![0, 1], a1.clone()]),
+            cat(&[vec![9, 1], a1.clone()]),
+            cat(&[vec![3, 1], a1.clone(), vec![4, 1], a1.clone()]),
+            cat(&[vec![2, 1], a1[..3].to_vec()]),
+        ] {
+            cands.push((Attribute::AS_PATH, v));
+        }
+        for v in [vec![], vec![0xfd], vec![0xfd, 0xe8, 0], vec![0xfd, 0xe8, 0, 1], vec![0xfd, 0xe8, 0, 1, 0xfd], vec![0xfd, 0xe8, 0, 1, 0xfd, 0xe8, 0, 2]] {
+            cands.push((Attribute::COMMUNITY, v.clone()));
+            cands.push((Attribute::MULTI_EXIT_DESC, v.clone()));
+            cands.push((Attribute::LOCAL_PREF, v));
+        }
+        let mut pols: Vec<Value> = Vec::new();
+        for set in ["as1", "as2", "as3", "as4"] {
+            for o in ["any", "all", "invert"] {
+                pols.push(json!({"stmts": [{"conds": [{"k": "aspath", "set": set, "opt": o}], "disp": "reject", "act": "prep2"}], "default": "accept"}));
+            }
+        }
+        for cmp in ["eq", "ge", "le"] {
+            for k in [0, 1, 2] {
+                pols.push(json!({"stmts": [{"conds": [{"k": "aslen", "cmp": cmp, "n": k}], "disp": "reject", "act": "none"}], "default": "accept"}));
+            }
+        }
+        for set in ["cs1", "cs2"] {
+            for o in ["any", "all", "invert"] {
+                pols.push(json!({"stmts": [{"conds": [{"k": "community", "set": set, "opt": o}], "disp": "none", "act": "commrm"}], "default": "accept"}));
+            }
+        }
+        for act in ["lp200", "addc3", "commset", "medadd", "medsub", "medset", "prep2"] {
+            pols.push(json!({"stmts": [{"conds": [], "disp": "none", "act": act}], "default": "accept"}));
+        }
+        let e = embs[1];
+        let (addr, mask) = embed(e, 2, 1);
+        let net = match addr {
+            IpAddr::V4(a) => packet::Nlri::V4(packet::bgp::Ipv4Net { addr: a, mask }),
+            IpAddr::V6(a) => packet::Nlri::V6(packet::bgp::Ipv6Net { addr: a, mask }),
+        };
+        let (mut accepted, mut wire_evals) = (0u64, 0u64);
+        for (code, bytes) in &cands {
+            let Ok(Some(attr)) = catch_unwind(AssertUnwindSafe(|| Attribute::from_wire_value(*code, bytes))) else {
+                continue;
+            };
+            accepted += 1;
+            let mut attrs = vec![Attribute::new_with_value(Attribute::ORIGIN, 0).unwrap()];
+            if *code != Attribute::AS_PATH {
+                attrs.push(Attribute::new_with_bin(Attribute::AS_PATH, aspath("a1")).unwrap());
+            }
+            attrs.push(attr);
+            attrs.sort_by_key(|a| a.code());
+            let attrs = Arc::new(attrs);
+            for pol in &pols {
+                let Ok(asg) = build(e, pol) else { continue };
+                wire_evals += 1;
+                let r = catch_unwind(AssertUnwindSafe(|| {
+                    let mut nh = Some(packet::bgp::Nexthop::V4(Ipv4Addr::new(192, 0, 2, 1)));
+                    let (_, post) = table::apply_import(&asg, None, &source, &net, &attrs, &mut nh);
+                    // what the rest of the daemon does with the result: compare / measure the path
+                    post.iter().find(|a| a.code() == Attribute::AS_PATH).map(|a| a.as_path_length())
+                }));
+                if r.is_err() {
+                    mism += 1;
+                    let hex: String = bytes.iter().map(|b| format!("{:02x}", b)).collect();
+                    if quota(&mut per, &pol.to_string(), "panic_on_decoded") {
+                        writeln!(out, "{}", json!({"i": 0, "emb": 1, "kind": "panic_on_decoded", "pol": pol, "r": {"attr_code": code, "value_hex": hex}})).unwrap();
+                    }
+                }
+            }
+        }
+        writeln!(out, "{}", json!({"wire": {"candidates": cands.len(), "accepted_by_the_decoder": accepted, "evaluations": wire_evals}})).unwrap();
     }
     writeln!(out, "{}", json!({"summary": {"evaluations": n, "mismatches": mism}})).unwrap();
     out.flush().unwrap();
